@@ -326,6 +326,30 @@ protected:
     }
   }
 
+  // ── Upgraded Session Closed Hook ───────────────────────────────────────
+
+  /// \brief The TCP connection is gone. If the session state is still here the
+  /// connection ended without a close handshake (peer drop, idle timeout):
+  /// release the state and report 1006 (abnormal closure, RFC 6455 §7.4.1). The
+  /// CLOSE-frame and oversize paths erase the state themselves before they call
+  /// closeSession, so this finds nothing for them and stays silent.
+  void onUpgradedSessionClosed(SessionId sid) override
+  {
+    {
+      std::lock_guard<std::mutex> lock(_wsMutex);
+      if (_sessions.erase(sid) == 0)
+      {
+        return;
+      }
+    }
+
+    // Fire callback outside lock
+    if (_onClose)
+    {
+      _onClose(sid, 1006, "");
+    }
+  }
+
 private:
   void handleFrame(SessionId sid, const WebSocketFrame& frame)
   {
